@@ -1,13 +1,13 @@
 import Props.C03e
 /-! C03, Log100 / Log316, linear -> gamma direction: `1 + log10(x) / k` above the threshold, 0 below. The decimal logarithm is
 a libm call (`f32::log10`) in every build, i.e. a PARAMETER of the model; the theorem is stated under the explicit hypothesis
-that this parameter is within 1e-6 (absolute) of the real decimal logarithm on `[0.003, 1]` (glibc documents < 1 ulp). -/
+that this parameter is within 1e-6 (absolute) of the real decimal logarithm on `[0.003, 1.001]` (glibc documents < 1 ulp). -/
 namespace C03
 open F32 MathM TransferM Real ExpPoly Horner
 
 /-- the assumption on the libm parameter `log10` -/
 def LibmLog10Accurate (lm : Libm) : Prop :=
-  ∀ x : Nat, Finite x → 3 / 1000 ≤ toReal x → toReal x ≤ 1 →
+  ∀ x : Nat, Finite x → 3 / 1000 ≤ toReal x → toReal x ≤ 1001 / 1000 →
     Finite (lm.log10 x) ∧ |toReal (lm.log10 x) - Real.logb 10 (toReal x)| ≤ 1 / 10 ^ 6
 
 /-- the logarithmic OETF of H.273: `1 + log10(x)/k` for `x ≥ 10^-k`, else 0 -/
@@ -54,7 +54,7 @@ theorem logb_near (T X : ℝ) (hT : 0 < T) (h1 : T * (1 - 1 / 10 ^ 5) ≤ X) (h2
   · exact Real.logb_le_logb_of_le (by norm_num) hX h2
 
 /-- real-arithmetic core: the computed value above the threshold -/
-theorem logg_real (k X l d r lv : ℝ) (hk1 : 2 ≤ k) (hk2 : k ≤ 5 / 2) (hl : |lv - l| ≤ 1 / 10 ^ 6) (hll : -3 ≤ l) (hlu : l ≤ 0)
+theorem logg_real (k X l d r lv : ℝ) (hk1 : 2 ≤ k) (hk2 : k ≤ 5 / 2) (hl : |lv - l| ≤ 1 / 10 ^ 6) (hll : -3 ≤ l) (hlu : l ≤ 1)
     (hd : |d - lv / k| ≤ 1 / 10 ^ 6) (hr : |r - (1 + d)| ≤ 1 / 10 ^ 6) : |r - (1 + l / k)| ≤ 3 / 10 ^ 6 := by
   have e : r - (1 + l / k) = (r - (1 + d)) + (d - lv / k) + (lv - l) / k := by field_simp; ring
   rw [e]
@@ -71,7 +71,7 @@ include hL
 theorem log_gamma_branch (thr zero one kc : Nat) (k : ℝ) (hk1 : 2 ≤ k) (hk2 : k ≤ 5 / 2)
     (hthr : Finite thr) (hT1 : (10:ℝ) ^ (-k) * (1 - 1 / 10 ^ 5) ≤ toReal thr) (hT2 : toReal thr ≤ (10:ℝ) ^ (-k)) (hT3 : 3 / 1000 ≤ toReal thr)
     (hz : Finite zero ∧ toReal zero = 0) (h1c : Finite one ∧ toReal one = 1) (hkc : Finite kc ∧ toReal kc = k)
-    (x : Nat) (hx : Finite x) (h0 : 0 ≤ toReal x) (h1 : toReal x ≤ 1) :
+    (x : Nat) (hx : Finite x) (h0 : 0 ≤ toReal x) (h1 : toReal x ≤ 1001 / 1000) :
     Finite (if le x thr then zero else add one (div (B.libm.log10 x) kc)) ∧
     |toReal (if le x thr then zero else add one (div (B.libm.log10 x) kc)) - logSpec k (toReal x)| ≤ 2 / 10 ^ 5 := by
   have hu' : u = 1 / 16777216 := u_val
@@ -102,7 +102,9 @@ theorem log_gamma_branch (thr zero one kc : Nat) (k : ℝ) (hk1 : 2 ≤ k) (hk2 
     have hXpos : 0 < X := by linarith
     obtain ⟨hlf, hle'⟩ := hL x hx (by linarith) h1
     set l := Real.logb 10 X with hl
-    have hlu : l ≤ 0 := Real.logb_nonpos (by norm_num) hXpos.le h1
+    have hlu : l ≤ 1 := by
+      have h10 : Real.logb 10 X ≤ Real.logb 10 10 := Real.logb_le_logb_of_le (by norm_num) hXpos (by linarith)
+      rw [Real.logb_self_eq_one (by norm_num)] at h10; exact h10
     have hll : -3 ≤ l := by
       rw [hl, Real.le_logb_iff_rpow_le (by norm_num) hXpos]
       have : (10:ℝ) ^ (-3:ℝ) = 1 / 1000 := by rw [show (-3:ℝ) = ((-3:ℤ):ℝ) by norm_num, Real.rpow_intCast]; norm_num
@@ -148,9 +150,10 @@ theorem log_gamma_branch (thr zero one kc : Nat) (k : ℝ) (hk1 : 2 ≤ k) (hk2 
       exact le_trans hcore (by norm_num)
 
 
-theorem log100_to_gamma_b : CurveWithinB (log100_oetf B) (logSpec 2) (2 / 10 ^ 5) := by
+/-- inputs up to 1.001 (used by the round trip, where the first stage may land just above 1) -/
+theorem log100_to_gamma_ext (x : Nat) (hx : Finite x) (h0 : 0 ≤ toReal x) (h1 : toReal x ≤ 1001 / 1000) :
+    ∃ r, log100_oetf B x = .ok r ∧ Finite r ∧ |toReal r - logSpec 2 (toReal x)| ≤ 2 / 10 ^ 5 := by
   obtain ⟨a1, a2, a3, b1, b2, c1, c2, d1, d2, _⟩ := cert_logg
-  intro x hxw hx h0 h1
   obtain ⟨ft, vt⟩ := Exp2.rat_val _ a1
   have e2 : (10:ℝ) ^ (-(2:ℝ)) = 1 / 100 := by
     rw [show (-(2:ℝ)) = ((-2:ℤ):ℝ) by norm_num, Real.rpow_intCast]; norm_num
@@ -161,9 +164,12 @@ theorem log100_to_gamma_b : CurveWithinB (log100_oetf B) (logSpec 2) (2 / 10 ^ 5
     ⟨(val_of _ _ c1 c2).1, by rw [(val_of _ _ c1 c2).2]; norm_num⟩ ⟨(val_of _ _ d1 d2).1, by rw [(val_of _ _ d1 d2).2]; norm_num⟩ x hx h0 h1
   exact ⟨_, rfl, hf, he⟩
 
-theorem log316_to_gamma_b : CurveWithinB (log316_oetf B) (logSpec (5 / 2)) (2 / 10 ^ 5) := by
+theorem log100_to_gamma_b : CurveWithinB (log100_oetf B) (logSpec 2) (2 / 10 ^ 5) :=
+  fun x _ hx h0 h1 => log100_to_gamma_ext B hL x hx h0 (by linarith)
+
+theorem log316_to_gamma_ext (x : Nat) (hx : Finite x) (h0 : 0 ≤ toReal x) (h1 : toReal x ≤ 1001 / 1000) :
+    ∃ r, log316_oetf B x = .ok r ∧ Finite r ∧ |toReal r - logSpec (5 / 2) (toReal x)| ≤ 2 / 10 ^ 5 := by
   obtain ⟨_, _, _, _, _, _, _, _, _, a1, a2, a3, a4, b1, b2, c1, c2, d1, d2⟩ := cert_logg
-  intro x hxw hx h0 h1
   obtain ⟨ft, vt⟩ := Exp2.rat_val _ a1
   set c := toReal C.log316_oetf_f0 with hc
   set s := (10:ℝ) ^ (-(5 / 2 : ℝ)) with hs
@@ -180,6 +186,9 @@ theorem log316_to_gamma_b : CurveWithinB (log316_oetf B) (logSpec (5 / 2)) (2 / 
     ft (by nlinarith) hcs (by linarith) (zero_of _ b1 b2)
     ⟨(val_of _ _ c1 c2).1, by rw [(val_of _ _ c1 c2).2]; norm_num⟩ ⟨(val_of _ _ d1 d2).1, by rw [(val_of _ _ d1 d2).2]; norm_num⟩ x hx h0 h1
   exact ⟨_, rfl, hf, he⟩
+
+theorem log316_to_gamma_b : CurveWithinB (log316_oetf B) (logSpec (5 / 2)) (2 / 10 ^ 5) :=
+  fun x _ hx h0 h1 => log316_to_gamma_ext B hL x hx h0 (by linarith)
 
 theorem log100_to_gamma : CurveWithinF (log100_oetf B) (logSpec 2) := by
   intro x hxw hx h0 h1
